@@ -186,6 +186,7 @@ func (r *Run) Must(what string, budget int64, f func()) {
 // ---- engine specification ------------------------------------------------------
 
 type Plan struct {
+	ColdEvery       int    // overrides Spec.ColdEvery for this tier when > 0
 	ExhaustiveScope string // which finite space the enumerated part covers completely (evidence key exhaustive_scope)
 	Enum            int    // enumerated cases 0..Enum-1 (each run once, first tape draw forced)
 	Random          int    // tape-random runs
@@ -216,6 +217,10 @@ type Spec struct {
 	// run in a fresh process each. Needed where an oracle is process-global: the race
 	// detector reports one racing stack pair only once per process.
 	Isolated bool
+	// ColdEvery > 0: every ColdEvery-th run is executed in a fresh process of its own, so that
+	// process-wide lazily initialised state of the tree under test (memo tables, sync.Once
+	// pools) is cold when the run starts.
+	ColdEvery int
 	// Finish is called by each worker after its last run; it may add counters.
 	Finish func(counters map[string]int64)
 }
@@ -321,11 +326,13 @@ func execute(s *Spec, t *tape.Tape, tier string, tracing bool) (res result) {
 }
 
 type isoResult struct {
-	Fail  *Failure `json:"fail"`
-	Rec   []uint64 `json:"rec"`
-	Obs   uint64   `json:"obs"`
-	Trace []string `json:"trace"`
-	Nontr bool     `json:"nontr"`
+	C     map[string]int64 `json:"c,omitempty"`
+	Case  int              `json:"case"`
+	Fail  *Failure         `json:"fail"`
+	Rec   []uint64         `json:"rec"`
+	Obs   uint64           `json:"obs"`
+	Trace []string         `json:"trace"`
+	Nontr bool             `json:"nontr"`
 }
 
 var runsOverrideFlag *int
@@ -358,6 +365,41 @@ func executeSequence(s *Spec, tier string, seed uint64, first, step, last, runsO
 		os.Exit(2)
 	}
 	return result{fail: ir.Fail, rec: ir.Rec, obs: ir.Obs, trace: ir.Trace, nontr: ir.Nontr}
+}
+
+// IsColdRun reports whether run is one of the runs executed in a fresh process.
+func IsColdRun(s *Spec, run int) bool {
+	// a hash of the run number, so that cold runs spread evenly over the workers
+	return s.ColdEvery > 0 && tape.Mix(uint64(run), 0xc01d)%uint64(s.ColdEvery) == 0
+}
+
+// executeColdRun executes run number run of this seed in a fresh process.
+func executeColdRun(s *Spec, tier string, seed uint64, run int) result {
+	dir, err := os.MkdirTemp("", "cold-")
+	if err != nil {
+		fmt.Fprintln(os.Stderr, "cold run:", err)
+		os.Exit(2)
+	}
+	defer os.RemoveAll(dir)
+	out := filepath.Join(dir, "out.json")
+	args := []string{"-execrun", fmt.Sprint(run), "-execout", out, "-tier", tier, "-seed", fmt.Sprint(seed)}
+	if runsOverrideFlag != nil && *runsOverrideFlag >= 0 {
+		args = append(args, "-runs", fmt.Sprint(*runsOverrideFlag))
+	}
+	c := exec.Command(os.Args[0], args...)
+	c.Stderr = os.Stderr
+	c.Env = os.Environ()
+	if err := c.Run(); err != nil {
+		fmt.Fprintln(os.Stderr, "cold run failed:", err)
+		os.Exit(2)
+	}
+	ob, err := os.ReadFile(out)
+	var ir isoResult
+	if err != nil || json.Unmarshal(ob, &ir) != nil {
+		fmt.Fprintln(os.Stderr, "cold run: no result")
+		os.Exit(2)
+	}
+	return result{fail: ir.Fail, rec: ir.Rec, obs: ir.Obs, nontr: ir.Nontr, c: ir.C, caseN: ir.Case}
 }
 
 // executeIsolated runs one tape in a fresh process of this binary.
@@ -538,6 +580,7 @@ func Main(s *Spec) {
 	runsOverride := flag.Int("runs", -1, "override the number of random runs")
 	runsOverrideFlag = runsOverride
 	execSeq := flag.String("execseq", "", "internal: first,step,last - execute this run sequence, report the last run")
+	execRun := flag.Int("execrun", -1, "internal: execute this run number (generated from the seed) and report it")
 	eventlog := flag.Bool("eventlog", false, "internal: record per-run event log (determinism self-test)")
 	eventOut := flag.String("eventout", "", "write merged event log here")
 	oneRun := flag.Int("run", -1, "execute only this run number, with trace")
@@ -578,6 +621,20 @@ func Main(s *Spec) {
 	plan := s.Plan(*tier)
 	if *runsOverride >= 0 {
 		plan.Random = *runsOverride
+	}
+	if plan.ColdEvery > 0 {
+		s.ColdEvery = plan.ColdEvery
+	}
+	if *execRun >= 0 {
+		if s.Setup != nil {
+			s.Setup(*tier)
+		}
+		res := execute(s, genTape(s, *seed, *execRun, plan), *tier, false)
+		ob, _ := json.Marshal(isoResult{Fail: res.fail, Rec: res.rec, Obs: res.obs, Nontr: res.nontr, C: res.c, Case: res.caseN})
+		if os.WriteFile(*execOut, ob, 0o644) != nil {
+			os.Exit(2)
+		}
+		os.Exit(0)
 	}
 	if *execSeq != "" {
 		var first, step, last int
@@ -634,11 +691,22 @@ func genTape(s *Spec, seed uint64, run int, plan Plan) *tape.Tape {
 	if run < plan.Enum {
 		return tape.NewGen(rs, []uint64{uint64(run) + 1})
 	}
+	if s.ColdEvery > 0 {
+		// the engine's first own draw says whether this run starts in a fresh process
+		cold := uint64(0)
+		if IsColdRun(s, run) {
+			cold = 1
+		}
+		return tape.NewGen(rs, []uint64{0, cold})
+	}
 	return tape.NewGen(rs, []uint64{0})
 }
 
 func runWorker(s *Spec, tier string, seed uint64, wi, wn int, plan Plan, ks []known, out, replays string, eventlog bool) {
 	start := time.Now()
+	if v := os.Getenv("VERIF_COLD_EVERY"); v != "" {
+		fmt.Sscan(v, &s.ColdEvery) // experiments only
+	}
 	if s.Setup != nil {
 		s.Setup(tier)
 	}
@@ -649,8 +717,16 @@ func runWorker(s *Spec, tier string, seed uint64, wi, wn int, plan Plan, ks []kn
 			wo.Truncated = true
 			break
 		}
-		t := genTape(s, seed, run, plan)
-		res := execute(s, t, tier, false)
+		var res result
+		if IsColdRun(s, run) {
+			res = executeColdRun(s, tier, seed, run)
+			if res.c == nil {
+				res.c = map[string]int64{}
+			}
+			res.c["probe.run-executed-in-a-fresh-process(cold-start)"]++
+		} else {
+			res = execute(s, genTape(s, seed, run, plan), tier, false)
+		}
 		wo.Runs++
 		for k, v := range res.c {
 			wo.Counters[k] += v
@@ -692,6 +768,17 @@ func runWorker(s *Spec, tier string, seed uint64, wi, wn int, plan Plan, ks []kn
 		if s.Isolated {
 			rerun = func(tp []uint64, tracing bool) result { return executeIsolated(s, tp, tier) }
 			maxAtt = 120
+		}
+		if strings.HasSuffix(res.fail.Class, "/stuck") {
+			// the process is poisoned (tasks blocked for ever): no minimisation, report and stop
+			rf := replayFile{Property: s.Property, Engine: s.Engine, Tier: tier, Seed: seed, Run: run, Class: res.fail.Class, Key: res.fail.Key,
+				Message: res.fail.Msg, Tape: res.rec, OrigLen: len(res.rec), TraceHash: traceHash(nil, res.obs)}
+			os.MkdirAll(replays, 0o755)
+			path := filepath.Join(replays, fmt.Sprintf("%s-%d-%d.json", s.Property, seed, run))
+			b, _ := json.MarshalIndent(rf, "", " ")
+			os.WriteFile(path, b, 0o644)
+			wo.Violations = append(wo.Violations, violation{Class: res.fail.Class, Key: res.fail.Key, Msg: res.fail.Msg, Replay: path, Run: run})
+			break
 		}
 		shr, attempts := shrink(rerun, res.rec, res.fail.Class, ks, maxAtt, time.Now().Add(60*time.Second))
 		fin := rerun(shr, true)
@@ -1012,6 +1099,9 @@ func doReplay(s *Spec, path string, ks []known) int {
 		plan := s.Plan(tier)
 		if runsOverrideFlag != nil && *runsOverrideFlag >= 0 {
 			plan.Random = *runsOverrideFlag
+		}
+		if plan.ColdEvery > 0 {
+			s.ColdEvery = plan.ColdEvery
 		}
 		fmt.Printf("  (sequence replay: runs %d, %d, ..., %d of seed %d in this fresh process)\n", rf.SeqFirst, rf.SeqFirst+rf.SeqStep, rf.SeqLast, rf.Seed)
 		for run := rf.SeqFirst; run <= rf.SeqLast; run += rf.SeqStep {
